@@ -377,6 +377,11 @@ namespace cds { namespace algo {
             unsigned rest = static_cast<unsigned>( rest_count());
             if ( rest < count )
                 count = rest;
+            if ( count == sizeof( int_type ) * c_nBitPerByte ) {
+                // the whole number is requested: cut() cannot do that (a shift by the full width is undefined)
+                shift_ = count;
+                return number_;
+            }
             return count ? cut( count ) : 0;
         }
 
